@@ -450,6 +450,12 @@ func (mr *msgReader) Read(p []byte) (n int, err error) {
 	}
 	defer mr.c.readMu.unlock()
 
+	if mr.flate && mr.flateReader == nil {
+		// The compressed message was already read to its end and its flate reader went back
+		// to the pool, where another connection may have picked it up: do not touch it again.
+		return 0, io.EOF
+	}
+
 	n, err = mr.limitReader.Read(p)
 	mr.c.vErr("MrRead", err, int64(n))
 	if mr.flate && mr.flateContextTakeover() && mr.dict != nil {
